@@ -397,8 +397,22 @@ func rendReuse(ctx *Ctx, t *tape.Tape, as [][]world.Op, cuts []int, causes []abo
 	// cleared, as happens to any element of a slice that is appended to
 	pool := make([]render.Renderer, 1)
 	r := &pool[0]
-	r.SetRasterizer(z, rect)
 	var notes []string
+	if t.Chance(1, 6) {
+		// the earliest history of the object may have used another kind of
+		// rasteriser altogether: the real one, drawing a small tame graphic
+		vr := vec.NewRasterizer(image.NewRGBA(image.Rect(0, 0, 16, 16)))
+		r.SetRasterizer(vr, image.Rect(0, 0, 16, 16))
+		r.Reset(ivg.DefaultViewBox, ivg.DefaultPalette)
+		r.StartPath(0, -8, -8)
+		r.RelLineTo(16, 0)
+		r.RelQuadTo(0, 8, -8, 16)
+		if t.Bool() {
+			r.ClosePathEndPath()
+		}
+		notes = append(notes, "before everything else the Renderer drew a small square into a real vec.Rasterizer")
+	}
+	r.SetRasterizer(z, rect)
 	disabledAtAbort := false
 	for i := range as {
 		i := i
